@@ -294,22 +294,49 @@ def run_lines(binary_args, lines, shards=None, timeout=900, single_timeout=20):
     import threading
     results = [None] * len(procs)
 
-    def batch(p, chunk, tmo):
-        """-> complete output lines of one process fed with chunk (fewer than len(chunk) if it crashed or ran out of time)"""
+    def batch(p, chunk, tmo, stall=120):
+        """-> complete output lines of one process fed with chunk (fewer than len(chunk) if it crashed, ran out of time, or
+        printed nothing for `stall` seconds: the line it is stuck on is then run alone under single_timeout)"""
+        import select
+        import time
         data = ("\n".join(chunk) + "\n").encode("utf-8")
-        try:
-            out, _ = p.communicate(data, timeout=tmo)
-        except subprocess.TimeoutExpired:
-            p.kill()
+
+        def feed():
             try:
-                out, _ = p.communicate(timeout=10)
-            except Exception:
-                out = b""
-        text = out.decode("utf-8", "replace")
+                p.stdin.write(data)
+                p.stdin.close()
+            except (BrokenPipeError, OSError, ValueError):
+                pass
+        wt = threading.Thread(target=feed)
+        wt.start()
+        fd = p.stdout.fileno()
+        buf = b""
+        start = last = time.time()
+        while True:
+            r, _, _ = select.select([fd], [], [], 1.0)
+            now = time.time()
+            if r:
+                part = os.read(fd, 1 << 16)
+                if not part:
+                    break
+                buf += part
+                last = now
+            elif now - last > stall or now - start > tmo:
+                break
+        try:
+            p.kill()
+        except OSError:
+            pass
+        try:
+            p.wait(timeout=10)
+        except Exception:
+            pass
+        wt.join(timeout=10)
+        text = buf.decode("utf-8", "replace")
         lines = text.split("\n")
         if not text.endswith("\n"):
             lines = lines[:-1]            # a line cut short by the crash
-        return [r for r in lines if r != ""]
+        return [r for r in lines if r != ""][:len(chunk)]
 
     def single(c):
         try:
